@@ -426,6 +426,16 @@ func (n *vfC09nNode) Addr() string { return fmt.Sprintf("127.0.0.1:%d", n.Port) 
 
 // vfC09nStart launches a node process and waits for its ready line.
 func vfC09nStart(base string, cfg vfC09nCfg) (*vfC09nNode, error) {
+	var n *vfC09nNode
+	err := vfRetryPorts(func() error {
+		var e error
+		n, e = vfC09nStart1(base, cfg)
+		return e
+	})
+	return n, err
+}
+
+func vfC09nStart1(base string, cfg vfC09nCfg) (*vfC09nNode, error) {
 	cfg.Dir = filepath.Join(base, cfg.Name)
 	if cfg.KeepDir == "" {
 		cfg.KeepDir = filepath.Join(base, cfg.Name+".keep")
@@ -575,7 +585,7 @@ func (n *vfC09nNode) Crashed(base string) (bool, string) {
 // ------------------------------------------------------------------ controller side: clients over TCP
 
 func vfC09nDialBinary(addr string, name string, tag byte) (*vfBinConn, error) {
-	c, err := net.DialTimeout("tcp", addr, 5*time.Second)
+	c, err := vfDialLoopback(addr, 5*time.Second)
 	if err != nil {
 		return nil, err
 	}
@@ -586,7 +596,7 @@ func vfC09nDialBinary(addr string, name string, tag byte) (*vfBinConn, error) {
 }
 
 func vfC09nDialText(addr string, name string) (*vfTextConn, error) {
-	c, err := net.DialTimeout("tcp", addr, 5*time.Second)
+	c, err := vfDialLoopback(addr, 5*time.Second)
 	if err != nil {
 		return nil, err
 	}
@@ -646,7 +656,7 @@ type vfC09nProxy struct {
 }
 
 func vfC09nNewProxy(target string) (*vfC09nProxy, error) {
-	ln, err := net.Listen("tcp", "127.0.0.1:0")
+	ln, err := vfListenLoopback()
 	if err != nil {
 		return nil, err
 	}
@@ -764,7 +774,7 @@ func (p *vfC09nProxy) serve(down net.Conn) {
 	p.mu.Lock()
 	target := p.target
 	p.mu.Unlock()
-	up, err := net.DialTimeout("tcp", target, 5*time.Second)
+	up, err := vfDialLoopback(target, 5*time.Second)
 	if err != nil {
 		_ = down.Close()
 		return
